@@ -320,6 +320,32 @@ def _phase(arg):
                     rec['not_a_manager'] = repr(mgr)[:120]
                 else:
                     rec['obs'] = obs_manager(mgr, exist, trace['env_seed'])
+            elif kind == 'reselect':
+                # history on ONE selector object: select, configure other imputers (public attributes), reset_cache(),
+                # select again through the cache path - that must be a new selection for the current configuration,
+                # i.e. what a fresh selector with the same configuration computes without any cache
+                from adsg_core.optimization.assign_enc.encoder_registry import LazyFirstImputer, FirstImputer
+                spec = trace['settings'][op[1]]
+                settings, exist = gen_settings.build(spec)
+                seed_ = (trace['env_seed'] + 17 * op[1]) & 0x7FFFFFFF
+                np.random.seed(seed_)
+                s = sel.EncoderSelector(settings)
+                s.get_best_assignment_manager(cache=True)
+                s.lazy_imputer, s.eager_imputer = LazyFirstImputer, FirstImputer
+                s.reset_cache()
+                np.random.seed(seed_)
+                m2 = s.get_best_assignment_manager(cache=True)
+                s3 = sel.EncoderSelector(settings)
+                s3.lazy_imputer, s3.eager_imputer = LazyFirstImputer, FirstImputer
+                np.random.seed(seed_)
+                m3 = s3.get_best_assignment_manager(cache=False)
+                rec['calls'] = list(simenv.State.calls)
+                if not hasattr(m2, 'design_vars') or not hasattr(m3, 'design_vars'):
+                    rec['not_a_manager'] = repr((m2, m3))[:120]
+                else:
+                    rec['obs'] = obs_manager(m2, exist, trace['env_seed'])
+                    rec['obs_ref'] = obs_manager(m3, exist, trace['env_seed'])
+                s.reset_cache()  # the entry written for the other imputers must not leak into later operations
             elif kind == 'agg':
                 spec = trace['settings'][op[1]]
                 settings, exist = gen_settings.build(spec)
@@ -567,6 +593,22 @@ def _judge(trace, pi, oi, rec, log, stats, tainted, cold_dir, env):
                     raise Viol('C12/cache-not-transparent',
                                f'{where}: through the cache: {a["encoder"]} {a["n_opts"]}; computed without cache under the '
                                f'same fault plan: {b["encoder"]} {b["n_opts"]}; tables equal: {a["tables"] == b["tables"]}')
+    elif kind == 'reselect':
+        spec = trace['settings'][op[1]]
+        log.append(('reselect', pi, oi, rec['status'], rec.get('obs', {}).get('encoder'), rec.get('obs_ref', {}).get('encoder')))
+        if rec['status'] == 'exc':
+            # the selection defects of the unchanged tree (no candidate left etc.) are judged under `select`
+            stats['probe:reselect_raised:' + rec['exc'][0]] += 1
+            return
+        if 'not_a_manager' in rec:
+            raise Viol('C12/select-returns-no-manager', f'{where}: settings {spec}: {rec["not_a_manager"]}')
+        a, b = rec['obs'], rec['obs_ref']
+        if (a['encoder'], a['n_opts'], a['tables']) != (b['encoder'], b['n_opts'], b['tables']):
+            raise Viol('C12/stale-after-reset', f'{where}: after reconfiguring the imputers and reset_cache() the selector '
+                                                f'returned {a["encoder"]} {a["n_opts"]}, a fresh selector with the same '
+                                                f'configuration computes {b["encoder"]} {b["n_opts"]} (tables equal: '
+                                                f'{a["tables"] == b["tables"]}); settings {spec}')
+        stats['reselect_checked'] += 1
     elif kind == 'agg':
         spec = trace['settings'][op[1]]
         log.append(('agg', pi, oi, rec['status'], rec.get('count')))
@@ -666,8 +708,8 @@ def _producer(trace, pi, oi):
     idx = flat.index((pi, oi, op))
     prod = None
     for a, b, o in flat[:idx + 1]:
-        if o[0] == 'reset_all' or (o[0] == 'reset_sel' and o[1] == op[1]):
-            prod = None
+        if o[0] == 'reset_all' or (o[0] in ('reset_sel', 'reselect') and o[1] == op[1]):
+            prod = None  # (a reselect operation ends with a reset of the selection cache of its settings)
         elif o[0] == 'select' and o[1] == op[1]:
             if prod is None or not o[2]:
                 prod = (a, b)
@@ -744,8 +786,8 @@ def generate(seed, tier='quick', index=0):
     for p in range(orng.randint(1, 3)):
         ops = []
         for _ in range(orng.randint(1, 4)):
-            k = orng.choices(['select', 'agg', 'iter', 'reset_sel', 'reset_mat', 'reset_all', 'keys'],
-                             [10, 3, 2, 1, 1, 0.5, 1])[0]
+            k = orng.choices(['select', 'agg', 'iter', 'reset_sel', 'reset_mat', 'reset_all', 'keys', 'reselect'],
+                             [10, 3, 2, 1, 1, 0.5, 1, 1])[0]
             si = orng.randrange(len(settings))
             if k == 'select':
                 ops.append(['select', si, orng.random() < 0.8, _gen_plan(orng), orng.random() < 0.9])
@@ -753,7 +795,7 @@ def generate(seed, tier='quick', index=0):
                 ops.append(['agg', si, orng.random() < 0.7])
             elif k == 'iter':
                 ops.append(['iter', si, orng.randrange(8)])
-            elif k in ('reset_sel', 'reset_mat'):
+            elif k in ('reset_sel', 'reset_mat', 'reselect'):
                 ops.append([k, si])
             else:
                 ops.append([k])
@@ -1117,7 +1159,7 @@ def sample(trace):
 RULE = ('Runs: (a) in-contract sessions over 1-3 generated connector settings (incl. pairs differing in exactly one '
         'attribute and degenerate settings with <= 1 connection set) split into 1-3 phases, each phase a fresh process on a '
         'shared private cache directory: select(cache on/off, limited calls killed at drawn delivery points, candidates '
-        'rejecting, tiny limits), aggregate matrix, per-pattern matrix iteration, counts, cache resets, cache keys; every returned manager is validated '
+        'rejecting, tiny limits), aggregate matrix, per-pattern matrix iteration, counts, cache resets, cache keys, re-selection on one selector object after reconfiguring its imputers and resetting its cache; every returned manager is validated '
         'against brute-force R-conn and, when it came through a cache, against the same selection recomputed without any '
         'cache under the same fault plan; (a2) cache-key families: up to 8 settings grown from one base by single-attribute '
         'edits (degrees, repetition flag, exclusions, patterns added/removed/permuted, transpose, explicit vs unset parallel '
